@@ -358,7 +358,7 @@ def build_c04(events, shapes, default_skip=None, want_mode=None, rng=None, strin
 
 
 # ------------------------------------------------------------------ C09
-FAULTS = ['wrong-output', 'wrong-output-marker', 'wrong-output-long', 'exception', 'exception-ignorewant', 'exception-ignorewant-inline', 'called-exception', 'helper-long', 'helper-short', 'compile', 'compile-late', 'badrepr',
+FAULTS = ['wrong-output', 'wrong-output-marker', 'wrong-output-long', 'exception', 'exception-finally', 'exception-reraise', 'exception-ignorewant', 'exception-ignorewant-inline', 'called-exception', 'helper-long', 'helper-short', 'compile', 'compile-late', 'badrepr',
           'badrepr-stdout', 'bad-directive', 'bad-directive-inline']
 
 
@@ -396,6 +396,7 @@ def build_c09(fault, pos, pre_want, multi, on_error='return', verbose=0, helper_
     fk = k
     exc_type = None
     failing_line = None
+    fail_offset = 0
     if fault == 'wrong-output':
         g = gd.Group('print', k)
         g.want = 'not the output'
@@ -420,6 +421,12 @@ def build_c09(fault, pos, pre_want, multi, on_error='return', verbose=0, helper_
         g = gd.Group('raise', k)
         kind = 'exception'
         exc_type = 'ValueError'
+    elif fault in ('exception-finally', 'exception-reraise'):
+        # the report must name the line that RAISED (second line of the statement), not the last line the frame executed
+        g = gd.Group('raisefinally' if fault == 'exception-finally' else 'raisereraise', k, style='old')
+        kind = 'exception'
+        exc_type = 'ZeroDivisionError'
+        fail_offset = 1
     elif fault in ('exception-ignorewant', 'exception-ignorewant-inline'):
         # IGNORE_WANT switches the comparison of wants off; it must not switch exceptions off
         if fault == 'exception-ignorewant':
@@ -493,7 +500,7 @@ def build_c09(fault, pos, pre_want, multi, on_error='return', verbose=0, helper_
         lastw = max([j for j in range(gi) if groups[j].kind != 'block' and groups[j].want is not None] or [-1])
         T = [x.k for x in groups[:lastw + 1] if x.kind != 'block' and 'def helper' not in x.lines[0]]
     expect = {'pfs': '010', 'kind': kind, 'T': T, 'exc_type': exc_type, 'render': True,
-              'fail_first_line': g.lines[0] if failing_line is None else None}
+              'fail_first_line': g.lines[fail_offset].strip() if failing_line is None else None}
     text = gd.render(groups)
     # the file line the report must name (the doctest starts on file line 1): the first line of the
     # offending want for a got/want mismatch, otherwise the doctest line that raised / called failing code
@@ -502,7 +509,7 @@ def build_c09(fault, pos, pre_want, multi, on_error='return', verbose=0, helper_
         first_src = g.src_lines()[0]
         idx = [i for i, l in enumerate(tl) if l == first_src or l.startswith(first_src + '  #')]
         if len(idx) == 1:
-            expect['fail_lineno'] = 1 + idx[0] + (len(g.src_lines()) if kind == 'gotwant' else 0)
+            expect['fail_lineno'] = 1 + idx[0] + (len(g.src_lines()) if kind == 'gotwant' else fail_offset)
     return {'text': text, 'run': {'on_error': on_error, 'verbose': verbose}, 'expect': expect,
             'desc': {'fault': fault, 'pos': pos, 'pre_want': pre_want, 'multi': multi, 'verbose': verbose,
                      'helper_extra': helper_extra, 'own_want': own_want},
